@@ -47,6 +47,7 @@ type quatDesc struct {
 	Exact  bool
 }
 type rotDesc struct{ A, B []float64 }
+type normDesc struct{ Q []float64 }
 type thetaDesc struct {
 	Theta   float64
 	Axis, V []float64
@@ -276,7 +277,9 @@ func doRot(d rotDesc) {
 	// distance of the image from b itself: within the 1e-6 window on the dot product |(-a) - b| < 1.5e-3
 	if crash == "" && finite(ra...) {
 		dx := math.Sqrt((ra[0]-d.B[0])*(ra[0]-d.B[0]) + (ra[1]-d.B[1])*(ra[1]-d.B[1]) + (ra[2]-d.B[2])*(ra[2]-d.B[2]))
-		lim := 1e-9
+		// the un-normalised quaternion has norm^2 = 2(1+dot): rounding of the (unit only to 1e-16) inputs is
+		// amplified by 1/(1+dot) just outside the antiparallel window — proportional to magnitude, far from O(1)
+		lim := 1e-9 + 4e-15/(1+dt)
 		if branch != "generic" {
 			lim = 1.5e-3
 		}
@@ -287,9 +290,20 @@ func doRot(d rotDesc) {
 	coq := ""
 	ok := crash == "" && finite(flat(q, ra)...)
 	if ok {
-		coq = fmt.Sprintf("CRotTo %s %s %s %s %s %s", qone(1e-9), qlist(d.A), qlist(d.B), qlist(q), qlist(ra), qlist(want))
+		coq = fmt.Sprintf("CRotTo %s %s %s %s %s %s", qone(1e-9+4e-15/math.Max(1+dt, 1e-7)), qlist(d.A), qlist(d.B), qlist(q), qlist(ra), qlist(want))
 	}
 	add("rotto", d, true, coq, crash, ok)
+}
+
+func doNorm(d normDesc) {
+	var out []float64
+	crash := guard(func() { out = fromQ(toQ(d.Q).Normalize()) })
+	coq := ""
+	ok := crash == "" && finite(out...)
+	if ok {
+		coq = fmt.Sprintf("CNorm %s %s %s %s", qone(1e-9), qone(1e-9*maxabs(d.Q)), qlist(d.Q), qlist(out))
+	}
+	add("norm", d, true, coq, crash, ok)
 }
 
 func doTheta(d thetaDesc) {
@@ -645,6 +659,10 @@ func dispatch(kind string, raw json.RawMessage) {
 		var d rotDesc
 		un(&d)
 		doRot(d)
+	case "norm":
+		var d normDesc
+		un(&d)
+		doNorm(d)
 	case "theta":
 		var d thetaDesc
 		un(&d)
